@@ -27,7 +27,8 @@ EPS = np.finfo(float).eps
 
 
 def tol_c(fam, th):
-    return 1e-9 + (64 * EPS * math.exp(abs(th)) if fam == 'frank' else 0.0)
+    # Frank: cancellation in (g(u)g(v)+g(1))^2 costs eps*e^|theta|, and g(z)=exp(-theta z)-1 costs eps/|theta| as theta -> 0
+    return 1e-9 + (64 * EPS * (math.exp(abs(th)) + 1.0 / abs(th)) if fam == 'frank' else 0.0)
 
 
 def arr(cop, meth, X, what):
